@@ -836,6 +836,8 @@ fn gen_base(r: &mut Rng) -> Base {
         signer: c05::flip_case(r, &zone, 20),
         sig: vec![],
     };
+    // a generated first label may be `*`: the Labels field does not count it
+    s.labels = s.ref_case(&name, 1, &recs).owner_label_count() as u8;
     let bytes = s.ref_case(&name, 1, &recs).ref_signed_data().expect("reference bytes");
     s.sig = sign_with(ki, &bytes);
     Base { ki, k, s, name, ty, recs, now }
@@ -1339,12 +1341,23 @@ pub fn run(o: &Opts, rec: &mut Recorder) {
     }
     // pure part
     for _ in 0..o.n(1500, 40_000) {
-        let mut b = gen_base(&mut r);
-        let mut kp = Proof::Secure;
-        let lab = mutate(&mut b, &mut kp, &mut r);
-        if let Some(l) = vk_line(&b, kp) {
-            rec.stat(&format!("mutation.{}", lab.split('.').next().unwrap_or("?")));
-            exec(&l, rec);
+        let mut rr = r.fork();
+        let g = catch(move || {
+            let mut b = gen_base(&mut rr);
+            let mut kp = Proof::Secure;
+            let lab = mutate(&mut b, &mut kp, &mut rr);
+            vk_line(&b, kp).map(|l| (lab, l))
+        });
+        match g {
+            Ok(Some((lab, l))) => {
+                rec.stat(&format!("mutation.{}", lab.split('.').next().unwrap_or("?")));
+                exec(&l, rec);
+            }
+            Ok(None) => rec.stat("generator.unbuildable"),
+            Err(e) => {
+                eprintln!("c06 generator panic: {e}");
+                rec.stat("generator.panic");
+            }
         }
     }
     // history part
@@ -1354,10 +1367,18 @@ pub fn run(o: &Opts, rec: &mut Recorder) {
         }
     }
     for i in 0..o.n(250, 6_000) {
-        if let Some(h) = gen_history(&mut r, i as u64 % 7) {
-            rec.stat(&format!("history.kind.{}", i % 7));
-            for l in h {
-                exec(&l, rec);
+        let mut rr = r.fork();
+        match catch(move || gen_history(&mut rr, i as u64 % 7)) {
+            Ok(Some(h)) => {
+                rec.stat(&format!("history.kind.{}", i % 7));
+                for l in h {
+                    exec(&l, rec);
+                }
+            }
+            Ok(None) => rec.stat("generator.unbuildable"),
+            Err(e) => {
+                eprintln!("c06 generator panic: {e}");
+                rec.stat("generator.panic");
             }
         }
     }
